@@ -629,7 +629,10 @@ class TemplateNode(WikiNode):
             parameter_name: Union[str, int] = ""
             if len(parameter_list) == 0:
                 unnamed_parameter_index += 1
-                parameters[unnamed_parameter_index] = ""
+                # Creates the (still empty) value list; an empty list is
+                # turned into "" below.  Assigning "" here would make a later
+                # append to the same key fail.
+                parameters[unnamed_parameter_index]
 
             for index, parameter in enumerate(parameter_list):
                 if index == 0:
@@ -680,7 +683,9 @@ class TemplateNode(WikiNode):
                     parameters[unnamed_parameter_index].append(parameter)
 
         for p_name, p_value in parameters.items():
-            if isinstance(p_value, list) and len(p_value) == 1:
+            if isinstance(p_value, list) and len(p_value) == 0:
+                parameters[p_name] = ""
+            elif isinstance(p_value, list) and len(p_value) == 1:
                 parameters[p_name] = p_value[0]
 
         self._template_parameters = dict(parameters)
